@@ -4,7 +4,7 @@ CONSTANTS
   MaxCov = 2
   MaxIds = 3
   BigDims = {9, 12}
-  MaxSel = 4
+  MaxSel = 5
 SPECIFICATION Spec
 CHECK_DEADLOCK FALSE
 INVARIANT MechIsDecl
